@@ -490,7 +490,9 @@ fn main() {
                 if cap == 2 && !(s == "S4" || s == "S3") {
                     continue;
                 }
-                for b in &bounds {
+                // scenarios with more than three stops: the deepest bounds would only hit their time caps
+                let many_stops = expected(sc, sc.breakpoints).len() > 4;
+                for b in bounds.iter().filter(|b| !many_stops || matches!(b, Some(x) if *x <= 4)) {
                     items.push((s, sc, cap, *b));
                 }
             }
